@@ -78,7 +78,8 @@ def run(chk):
     chk.trusted = TRUSTED
     chk.assumptions = [
         "filtered (no claim, counted): defn of a let-bound name (documented hoisting), setx/setv to a comprehension's own "
-        "variable, let inside a loop body with escaping closures (not generated), declarations (C07's subject)",
+        "variable, let inside a loop body with escaping closures (not generated), declarations (C07's subject), a "
+        "short-circuit / conditional value that mentions the target of its own assignment (recorded finding C01-result-rename)",
         "a let inside a function is a new variable per call (the renamed Python local); at module level it is executed "
         "once by the generated programs",
     ]
